@@ -9,14 +9,20 @@ package main
 import (
 	"encoding/json"
 	"fmt"
+	"math"
 	"os"
 	"strconv"
 	"time"
 
 	"github.com/ipfs/go-cid"
+	"github.com/ipld/go-ipld-prime"
+	"github.com/ipld/go-ipld-prime/codec/dagcbor"
+	"github.com/ipld/go-ipld-prime/codec/dagjson"
+	"github.com/ipld/go-ipld-prime/node/basicnode"
 
 	"github.com/ucan-wg/go-ucan/pkg/args"
 	"github.com/ucan-wg/go-ucan/pkg/container"
+	"github.com/ucan-wg/go-ucan/token"
 	"github.com/ucan-wg/go-ucan/token/delegation"
 	"github.com/ucan-wg/go-ucan/token/invocation"
 )
@@ -544,8 +550,87 @@ func init() {
 		if rep.Evaluations == 0 {
 			return fmt.Errorf("no window case could be materialized")
 		}
-		return nil
+		return wireBounds(rep)
 	}
+}
+
+// wireBounds: time bounds as they can arrive on the wire, behind a correct signature, through EVERY decoder: values
+// the library's own constructors never write (unsigned integers up to 2^64-1, 2^53, negative ones) next to the far
+// ends it does write. A decoder may refuse them; if it hands out a token, the token's window is the one that was
+// signed: a not-before of 2^64-1 seconds is not "active since 1969", an expiration of 2^63 is not "expired".
+func wireBounds(rep *Report) error {
+	ew, err := newEnvWorld(envSeed(), true)
+	if err != nil {
+		return err
+	}
+	now := time.Now()
+	type wv struct {
+		name   string
+		node   ipld.Node
+		future bool // the instant lies in the future (true) or in the past
+	}
+	vals := []wv{
+		{"2^64-1", basicnode.NewUint(math.MaxUint64), true}, {"2^64-2^53", basicnode.NewUint(math.MaxUint64 - 1<<53 + 1), true},
+		{"2^63", basicnode.NewUint(1 << 63), true}, {"2^63-1", basicnode.NewInt(math.MaxInt64), true}, {"2^53", basicnode.NewInt(1 << 53), true},
+		{"2^53-1", basicnode.NewInt(1<<53 - 1), true}, {"year 9999", basicnode.NewInt(253402300799), true}, {"2^33", basicnode.NewInt(1 << 33), true},
+		{"-2^53", basicnode.NewInt(-(1 << 53)), false}, {"-2^63", basicnode.NewInt(math.MinInt64), false}, {"-1", basicnode.NewInt(-1), false}, {"0", basicnode.NewInt(0), false},
+	}
+	accepted := 0
+	for _, typ := range []string{"dlg", "inv"} {
+		fields := []string{"nbf", "exp"}
+		if typ == "inv" {
+			fields = []string{"exp"}
+		}
+		for _, f := range fields {
+			for _, v := range vals {
+				e := ew.base[typ].clone()
+				for _, other := range []string{"nbf", "exp"} {
+					if other != f {
+						delete(e.payload, other) // the other bound absent: the window is decided by this one
+					}
+				}
+				e.payload[f] = v.node
+				if err := e.signBy(ew.H); err != nil {
+					return err
+				}
+				node := e.node()
+				cb, err := ipld.Encode(node, dagcbor.Encode)
+				if err != nil {
+					return err
+				}
+				jb, _ := ipld.Encode(node, dagjson.Encode)
+				// valid now? nbf: iff the instant is in the past; exp: iff it is in the future
+				want := v.future == (f == "exp")
+				rs := append(decodeAll(typ, node, cb, jb), decodeAll("generic", node, cb, jb)...)
+				// and through a container, as a delegation loader would get it
+				cw := container.NewWriter()
+				cw.AddSealed(cborCid(cb), cb)
+				if data, err := cw.ToCar(); err == nil {
+					rs = append(rs, safeDec("container.FromCar+GetToken", func() (token.Token, error) {
+						rd, err := container.FromCar(data)
+						if err != nil {
+							return nil, err
+						}
+						return rd.GetToken(cborCid(cb))
+					}))
+				}
+				for _, r := range rs {
+					rep.Evaluations++
+					if r.err != nil || r.tok == nil {
+						continue
+					}
+					accepted++
+					cs := map[string]any{"type": typ, "field": f, "wire_value": v.name, "decoder": r.name}
+					if got := r.tok.IsValidAt(now); got != want {
+						rep.violation(cs, fmt.Sprintf("valid now: %v", want), fmt.Sprintf("valid now: %v", got),
+							"a decoder handed out a token whose validity window is not the one that was signed")
+					}
+				}
+			}
+		}
+	}
+	rep.Extra["wire_bounds_accepted"] = accepted
+	return nil
 }
 
 func fmtT(t *time.Time) string {
